@@ -192,3 +192,190 @@ def write_sites(repo):
     text.append(';\n'.join('  (%s, %d%%N, %s)' % (coq_str(f), l, coq_str(g)) for f, l, g in off))
     text.append('].')
     return 'WriteSites.v', '\n'.join(text) + '\n'
+
+
+# ---------------------------------------------------------------------------
+# C16: format strings and reader field tables
+import re as _re
+import string as _string
+
+_SPEC_RE = _re.compile(r'(([\s\S])?([<>=\^]))?([\+\- ])?(#)?(0)?(\d*)?(,)?((\.)(\d*))?([sbcdoxXneEfFgGn%])?')
+
+
+def _coq_char(c):
+    assert 32 <= ord(c) <= 126
+    return '"%s"%%char' % ('""' if c == '"' else c)
+
+
+def _fspec(spec):
+    trunc = spec.endswith('t')
+    if trunc:
+        spec = spec[:-1]
+    m = _SPEC_RE.fullmatch(spec)
+    if not m:
+        raise ExtractError('format spec %r' % spec)
+    fill, align, sign, alt, zero, width, comma, _, _, prec, typ = m.group(2, 3, 4, 5, 6, 7, 8, 9, 10, 11, 12)
+    if sign or alt or zero or comma:
+        raise ExtractError('unsupported format spec %r' % spec)
+    if typ == 's' and not prec:
+        kind = 'KStr'
+    elif typ == 'd' and not prec:
+        kind = 'KInt'
+    elif typ == 'f' and prec:
+        kind = '(KFix %d)' % int(prec)
+    else:
+        raise ExtractError('unsupported type in %r' % spec)
+    al = {None: 'None', '<': '(Some AL)', '>': '(Some AR)', '^': '(Some AC)'}.get(align)
+    if al is None:
+        raise ExtractError('unsupported align in %r' % spec)
+    return '{| f_fill := %s; f_align := %s; f_width := %d; f_kind := %s; f_trunc := %s |}' % (
+        _coq_char(fill or ' '), al, int(width or 0), kind, 'true' if trunc else 'false')
+
+
+def _chunks(fmt):
+    out = []
+    for lit, field, spec, conv in _string.Formatter().parse(fmt):
+        if lit:
+            out.append('Lit (s2l %s)' % coq_str(lit))
+        if field is not None:
+            if field != '' or conv:
+                raise ExtractError('named/converted field in %r' % fmt)
+            out.append('Fld %s' % _fspec(spec))
+    return '[' + ';\n    '.join(out) + ']'
+
+
+def _find_func(tree, name, cls=None):
+    for n in ast.walk(tree):
+        if cls and isinstance(n, ast.ClassDef) and n.name == cls:
+            for f in n.body:
+                if isinstance(f, ast.FunctionDef) and f.name == name:
+                    return f
+        if not cls and isinstance(n, ast.FunctionDef) and n.name == name:
+            return n
+    raise ExtractError('function %s not found' % name)
+
+
+def _assigned_const(func, var, pred=lambda v: True):
+    found = [n.value.value for n in ast.walk(func)
+             if isinstance(n, ast.Assign) and len(n.targets) == 1 and isinstance(n.targets[0], ast.Name)
+             and n.targets[0].id == var and isinstance(n.value, ast.Constant) and pred(n.value.value)]
+    if len(found) != 1:
+        raise ExtractError('expected exactly one literal assignment to %s, found %d' % (var, len(found)))
+    return found[0]
+
+
+def _rfields(func, var='fields'):
+    lists = [n.value for n in ast.walk(func)
+             if isinstance(n, ast.Assign) and len(n.targets) == 1 and isinstance(n.targets[0], ast.Name)
+             and n.targets[0].id == var and isinstance(n.value, ast.List)]
+    if len(lists) != 1:
+        raise ExtractError('field table %s' % var)
+    out = []
+    for elt in lists[0].elts:
+        if not (isinstance(elt, ast.Tuple) and len(elt.elts) == 3 and isinstance(elt.elts[0], ast.Constant)
+                and isinstance(elt.elts[1], ast.Name) and isinstance(elt.elts[2], ast.Constant)):
+            raise ExtractError('field tuple shape')
+        kind = {'str': 'RStr', 'int': 'RInt', 'float': 'RFloat'}.get(elt.elts[1].id)
+        if kind is None:
+            raise ExtractError('field type %s' % elt.elts[1].id)
+        out.append('{| r_name := %s; r_kind := %s; r_width := %d |}' % (coq_str(elt.elts[0].value), kind, int(elt.elts[2].value)))
+    return '[' + ';\n    '.join(out) + ']'
+
+
+@extractor
+def formats(repo):
+    pdb = ast.parse(open(os.path.join(repo, 'vermouth', 'pdb', 'pdb.py')).read())
+    w = _find_func(pdb, 'write_pdb_string')
+    atom_fmt = _assigned_const(w, 'format_string', lambda v: isinstance(v, str) and v.startswith('ATOM'))
+    number_fmt = _assigned_const(w, 'number_fmt')
+    ter = [n.args[0].value for n in ast.walk(w) if isinstance(n, ast.Call) and _call_name(n) == 'format' and n.args
+           and isinstance(n.args[0], ast.Constant) and isinstance(n.args[0].value, str) and n.args[0].value.startswith('TER')]
+    if len(ter) != 1:
+        raise ExtractError('TER format')
+    # fmt = 'CONECT' + number_fmt*(len(current) + 1)
+    conect = [n.value for n in ast.walk(w) if isinstance(n, ast.Assign) and isinstance(n.targets[0], ast.Name)
+              and n.targets[0].id == 'fmt']
+    if not (len(conect) == 1 and isinstance(conect[0], ast.BinOp) and isinstance(conect[0].op, ast.Add)
+            and isinstance(conect[0].left, ast.Constant) and isinstance(conect[0].right, ast.BinOp)
+            and isinstance(conect[0].right.op, ast.Mult) and isinstance(conect[0].right.left, ast.Name)
+            and conect[0].right.left.id == 'number_fmt'):
+        raise ExtractError('CONECT format expression')
+    conect_prefix = conect[0].left.value
+    # current, todo = todo[:4], todo[4:]
+    chunk = [n for n in ast.walk(w) if isinstance(n, ast.Subscript) and isinstance(n.value, ast.Name) and n.value.id == 'todo'
+             and isinstance(n.slice, ast.Slice) and n.slice.lower is None and isinstance(n.slice.upper, ast.Constant)]
+    if len(chunk) != 1:
+        raise ExtractError('CONECT chunk size')
+    chunk = int(chunk[0].slice.upper.value)
+    end = [n.args[0].value for n in ast.walk(w) if isinstance(n, ast.Call) and _call_name(n) == 'append' and n.args
+           and isinstance(n.args[0], ast.Constant) and isinstance(n.args[0].value, str) and n.args[0].value.startswith('END')]
+    def fmt_args(func, fmtvar):
+        calls = [n for n in ast.walk(func) if isinstance(n, ast.Call) and _call_name(n) == 'format' and n.args
+                 and isinstance(n.args[0], ast.Name) and n.args[0].id == fmtvar]
+        if len(calls) != 1 or not all(isinstance(a, ast.Name) for a in calls[0].args[1:]):
+            raise ExtractError('format call on %s' % fmtvar)
+        return [a.id for a in calls[0].args[1:]]
+    atom_args = fmt_args(w, 'format_string')
+    ratom = _rfields(_find_func(pdb, '_atom', 'PDBParser'))
+    dc = _find_func(pdb, 'do_conect', 'PDBParser')
+    cstart, cwidth = int(_assigned_const(dc, 'start')), int(_assigned_const(dc, 'width'))
+    gro = ast.parse(open(os.path.join(repo, 'vermouth', 'gmx', 'gro.py')).read())
+    gw = _find_func(gro, 'write_gro')
+    names = [a.arg for a in gw.args.args]
+    defaults = dict(zip(names[len(names) - len(gw.args.defaults):], gw.args.defaults))
+    if not isinstance(defaults.get('precision'), ast.Constant):
+        raise ExtractError('write_gro precision default')
+    precision = int(defaults['precision'].value)
+    # pos_format_string = '{{:{ntx}.3ft}}'.format(ntx=precision + 1)
+    pos = [n.value for n in ast.walk(gw) if isinstance(n, ast.Assign) and isinstance(n.targets[0], ast.Name)
+           and n.targets[0].id == 'pos_format_string']
+    if not (len(pos) == 1 and isinstance(pos[0], ast.Call) and isinstance(pos[0].func, ast.Attribute) and pos[0].func.attr == 'format'
+            and isinstance(pos[0].func.value, ast.Constant) and len(pos[0].keywords) == 1 and pos[0].keywords[0].arg == 'ntx'
+            and isinstance(pos[0].keywords[0].value, ast.BinOp) and isinstance(pos[0].keywords[0].value.op, ast.Add)
+            and isinstance(pos[0].keywords[0].value.left, ast.Name) and pos[0].keywords[0].value.left.id == 'precision'
+            and isinstance(pos[0].keywords[0].value.right, ast.Constant)):
+        raise ExtractError('pos_format_string expression')
+    pos_fmt = pos[0].func.value.value.format(ntx=precision + int(pos[0].keywords[0].value.right.value))
+    fs = [n.value for n in ast.walk(gw) if isinstance(n, ast.Assign) and isinstance(n.targets[0], ast.Name)
+          and n.targets[0].id == 'format_string']
+    if not (len(fs) == 1 and isinstance(fs[0], ast.BinOp) and isinstance(fs[0].op, ast.Add) and isinstance(fs[0].left, ast.Constant)
+            and isinstance(fs[0].right, ast.BinOp) and isinstance(fs[0].right.op, ast.Mult)
+            and isinstance(fs[0].right.left, ast.Name) and fs[0].right.left.id == 'pos_format_string'
+            and isinstance(fs[0].right.right, ast.Constant)):
+        raise ExtractError('gro format_string expression')
+    gro_fmt = fs[0].left.value + pos_fmt * int(fs[0].right.right.value)
+    gro_args = fmt_args(gw, 'format_string')
+    gr = _find_func(gro, 'read_gro')
+
+    def lst(var):
+        l = [n.value for n in ast.walk(gr) if isinstance(n, ast.Assign) and isinstance(n.targets[0], ast.Name)
+             and n.targets[0].id == var and isinstance(n.value, ast.List)]
+        if len(l) != 1:
+            raise ExtractError('read_gro ' + var)
+        return l[0].elts
+    types = [e.id for e in lst('field_types')]
+    fnames = [e.value for e in lst('field_names')]
+    widths = [int(e.value) for e in lst('field_widths')]
+    if len(types) != len(fnames) or len(widths) > len(types):
+        raise ExtractError('read_gro tables')
+    rg = []
+    for i, (t, nme) in enumerate(zip(types, fnames)):
+        kind = {'str': 'RStr', 'int': 'RInt', 'float': 'RFloat'}[t]
+        wd = widths[i] if i < len(widths) else 0      # 0: width = detected precision
+        rg.append('{| r_name := %s; r_kind := %s; r_width := %d |}' % (coq_str(nme), kind, wd))
+    text = ['(* GENERATED by vlib/extract.py from /repo: do not edit *)',
+            'From Coq Require Import List String Ascii ZArith.', 'From V Require Import C16.Model.', 'Import ListNotations.',
+            'Definition pdb_atom_w : list chunk :=\n   %s.' % _chunks(atom_fmt),
+            'Definition pdb_ter_w : list chunk :=\n   %s.' % _chunks(ter[0]),
+            'Definition pdb_conect_prefix : txt := s2l %s.' % coq_str(conect_prefix),
+            'Definition pdb_conect_num : list chunk :=\n   %s.' % _chunks(number_fmt),
+            'Definition pdb_conect_chunk : nat := %d.' % chunk,
+            'Definition pdb_end : txt := s2l %s.' % coq_str(end[0] if len(end) == 1 else '?'),
+            'Definition pdb_atom_r : list rfield :=\n   %s.' % ratom,
+            'Definition pdb_conect_start : nat := %d.' % cstart,
+            'Definition pdb_conect_width : nat := %d.' % cwidth,
+            'Definition gro_atom_w : list chunk :=\n   %s.' % _chunks(gro_fmt),
+            'Definition gro_atom_r : list rfield :=\n   [%s].' % ';\n    '.join(rg),
+            'Definition pdb_atom_args : list string := [%s].' % '; '.join(coq_str(a) for a in atom_args),
+            'Definition gro_atom_args : list string := [%s].' % '; '.join(coq_str(a) for a in gro_args)]
+    return 'Formats.v', '\n'.join(text) + '\n'
